@@ -16,14 +16,16 @@ CONSTANTS
   KeepHist,      \* TRUE: hist records every input (generators); FALSE: stays empty
   GenDepth,      \* generators: behaviour length at which the input history is written out
   GenDir,        \* generators: directory for the emitted behaviours
-  KindBag        \* generators: set of <<kind, k>> pairs; the multiplicity of a kind is its weight
+  KindBag,       \* generators: set of <<kind, k>> pairs; the multiplicity of a kind is its weight
+  Goals          \* transition coverage: {} = emit every state-changing transition; otherwise emit exactly the transitions
+                 \* (accepted or rejected) in which one of these named situations (FRProps!Goal) occurs
 
 VARIABLES st, act, res, xfers, hooks, extra, ghost, hist
 vars == <<st, act, res, xfers, hooks, extra, ghost, hist>>
 
 S0 == [InitState(Bal0, Params0, FALSE) EXCEPT !.nl = NL]
 InitAct == [a |-> "Init", users |-> UserSeq, na |-> NA, grid |-> D, bal0 |-> Bal0, params |-> Params0, listeners |-> NL]
-NoExtra == [panic |-> FALSE, nx |-> 0, validate_ok |-> TRUE, answer |-> <<>>, page |-> [total |-> 0, more |-> FALSE]]
+NoExtra == [panic |-> FALSE, nx |-> 0, validate_ok |-> TRUE, answer |-> <<>>, page |-> [total |-> 0, more |-> FALSE], modinv |-> <<>>]
 
 Init ==
   /\ st = S0
@@ -121,6 +123,7 @@ P_C19 == [][StepHolds(ByProp.C19)]_vars
 ----------------------------------------------------------------------------
 (* sanity: the core never produces a negative balance *)
 NoNegative == \A x \in Accts : \A d \in Denoms : st.bal[x][d] >= 0
+ModuleInvariantsHold == ModuleInvariantsBroken(st) = <<>>
 
 (* transition coverage: in an exhaustive run (VIEW without hist) every distinct state keeps the    *)
 (* input sequence of its first discovery, so printing hist' for every state-changing transition *)
@@ -129,7 +132,8 @@ NoNegative == \A x \in Accts : \A d \in Denoms : st.bal[x][d] >= 0
 (* Rejected inputs (self-loops) are far more numerous; a sample of them (one in RejectSample, 0 = none) is  *)
 (* emitted as well, so that "stays rejected" is replayed on the real code too.                            *)
 EmitT ==
-  (KeepHist /\ (st' # st \/ (RejectSample > 0 /\ ~res'.ok /\ RandomElement(1..RejectSample) = 1)))
+  (KeepHist /\ (IF Goals = {} THEN (st' # st \/ (RejectSample > 0 /\ ~res'.ok /\ RandomElement(1..RejectSample) = 1))
+                ELSE \E n \in Goals : Goal(n, ThisStep, ghost)))
      => PrintT("TRACE " \o ToJson(<<InitAct>> \o hist'))
 
 (* generators: write the input history of every behaviour of length GenDepth *)
